@@ -89,6 +89,14 @@ for name, ctype in [("int64", "long"), ("uint64", "unsigned long"), ("int64ll", 
     units.append(Unit(f"C19_big_{name}", "harness/C19_big.cpp", defs=[f"-DVF_IDX={ctype}", f'-DVF_IDX_NAME="{name}"'],
                       flavours={"quick": [] if second else [O0], "thorough": [O0, "asan-cc", "asan-nocc", "plain-cc"]}, shards={"quick": 4, "thorough": 4}))
 
+# static extents at the boundary of the index type (index max = what dynamic_extent narrows to for unsigned types, max-1, max/2+1)
+# next to dynamic extents in every position; memory-backed for the 8/16-bit index types, mapping-only for uint32
+for name, ctype, quick in [("uint8", "unsigned char", True), ("uint16", "unsigned short", True), ("uint32", "unsigned", True),
+                           ("int8", "signed char", True), ("int16", "short", False), ("int32", "int", False)]:
+    units.append(Unit(f"C19_edge_{name}", "harness/C19_edge.cpp", defs=[f"-DVF_IDX={ctype}", f'-DVF_IDX_NAME="{name}"'],
+                      flavours={"quick": [O0] if quick else [], "thorough": [O0, "asan-cc", "asanO0-nocc"] if quick else [O0]},
+                      shards={"quick": 2, "thorough": 2}))
+
 for e, tn in enumerate(["uchar", "int", "tri12", "constint"]):
     units.append(Unit(f"C19_span_{tn}", "harness/C19_span.cpp", defs=[f"-DVF_ELEM={e}"],
                       flavours={"quick": ["asan-cc"], "thorough": ["asan-cc", "asan-nocc", "plain-cc"]}, shards={"quick": 1, "thorough": 2}))
